@@ -19,7 +19,33 @@ import logging  # noqa: E402
 
 logging.disable(logging.CRITICAL)  # eyecite logs "Unknown overlap case" warnings; not under test
 
-import eyecite  # noqa: E402
+_SHADOW = os.environ.get("VERIF_SHADOW_SET") == "1"
+if _SHADOW:
+    import builtins
+
+    # everything eyecite depends on is imported first, so that only eyecite's own modules run under the shadow
+    import bisect, collections, copy, dataclasses, datetime, difflib, functools, hashlib, json, logging, pathlib, string, typing  # noqa: E401,F401
+    import re as _re  # noqa: F401
+
+    import ahocorasick, courts_db, fast_diff_match_patch, lxml.etree, lxml.html, regex, reporters_db, reporters_db.utils  # noqa: E401,F401
+
+    from mc import seam as _seam
+
+    _real_set = builtins.set
+    builtins.set = _seam.CSet
+try:
+    import eyecite  # noqa: E402
+    import eyecite.annotate  # noqa: E402,F401
+    import eyecite.clean  # noqa: E402,F401
+    import eyecite.find  # noqa: E402,F401
+    import eyecite.helpers  # noqa: E402,F401
+    import eyecite.models  # noqa: E402,F401
+    import eyecite.resolve  # noqa: E402,F401
+    import eyecite.tokenizers  # noqa: E402,F401
+    import eyecite.utils  # noqa: E402,F401
+finally:
+    if _SHADOW:
+        builtins.set = _real_set
 
 assert os.path.realpath(eyecite.__file__).startswith(REPO + "/"), eyecite.__file__
 
